@@ -5,12 +5,16 @@ from .oracle import Oracle, bits, mask
 
 def table_battery(battery):
     def run(concepts, case):
+        if case.get('_witness'):     # validation of a path witness: the plain observation on the real code
+            ctx, orc = B.make(concepts, case)
+            return battery(ctx, orc)
         late, orc = B.make(concepts, case)       # created before, first used after the other contexts
         keep = B.decoys(concepts, case['objects'], case['properties'], case['table'], battery)   # noqa: F841
         fails = [f'(context created before, used after other contexts over the same labels) {f}'
                  for f in battery(late, orc)]
         ctx, orc = B.make(concepts, case)
         fails += battery(ctx, orc)
+        fails += [f'(second pass over the same objects) {f}' for f in battery(ctx, orc)]
         if not fails and case.get('probe'):
             pc = B.probe_case(case)
             if pc is not None:
@@ -51,7 +55,7 @@ def predicates(concepts, case):
 def batch(concepts, case):
     fails = []
     for c in case['cases']:
-        for f in REPLAYERS[c['kind']](concepts, c):
+        for f in REPLAYERS[c['kind']](concepts, dict(c, _witness=True)):
             fails.append(f'{c.get("kind")}: {f}')
     return fails
 
